@@ -60,22 +60,26 @@ package mem
 //@   pure
 //@   nopanic
 
-//@ spec srcData(src keyvalue.FileRecord) := ret("keyvalue.(FileRecord).Data", 0, src)
-//@ spec srcDataErr(src keyvalue.FileRecord) := ret("keyvalue.(FileRecord).Data", 1, src)
+//@ spec srcData(src keyvalue.FileRecord) := keyvalue.srcData(src)
+//@ spec srcDataErr(src keyvalue.FileRecord) := keyvalue.srcDataErr(src)
+//@ spec srcCache(src keyvalue.FileRecord) := src.(*keyvalue.fileData).runOnceFileRecord
 //@ spec sameExcept(s *store, path string) := forall(k, string, implies(k != path, in(k, dom(s.records)) == old(in(k, dom(s.records))) && s.records[k] == old(s.records[k])))
 //@ spec sameAll(s *store) := forall(k, string, in(k, dom(s.records)) == old(in(k, dom(s.records))) && s.records[k] == old(s.records[k]))
 
 //@ func (s *store) set(path string, src keyvalue.FileRecord, contents blob.Blob) (err error)
 //@   props C18 C14
-//@   requires s != nil
-//@   modifies mapOf(s.records), world()
-//@   ensures "delete" implies(src == nil, err == nil && !in(path, dom(s.records)) && sameExcept(s, path) && world() == old(world()))
+//@   requires s != nil && keyvalue.srcOK(src)
+//@   dispatch keyvalue.FileRecord *keyvalue.fileData
+//@   modifies mapOf(s.records), srcCache(src).data, srcCache(src).dataErr, srcCache(src).dataDone, oncedone(srcCache(src).dataOnce),
+//@            srcCache(src).mode, oncedone(srcCache(src).modeOnce), srcCache(src).modTime, oncedone(srcCache(src).modTimeOnce)
+//@   ensures "src-kept" keyvalue.srcKept(src)
+//@   ensures "delete" implies(src == nil, err == nil && !in(path, dom(s.records)) && sameExcept(s, path))
 //@   ensures "data-error" implies(src != nil && old(srcDataErr(src)) != nil, err == old(srcDataErr(src)) && sameAll(s))
 //@   ensures "store" implies(src != nil && old(srcDataErr(src)) == nil, err == nil && in(path, dom(s.records)) && sameExcept(s, path) &&
 //@                     isType(s.records[path], fileRecord) && s.records[path].(fileRecord).store == s && s.records[path].(fileRecord).path == path &&
 //@                     s.records[path].(fileRecord).data == old(srcData(src)) &&
-//@                     s.records[path].(fileRecord).mode == old(ret("keyvalue.(FileRecord).Mode", 0, src)) &&
-//@                     s.records[path].(fileRecord).modTime == old(ret("keyvalue.(FileRecord).ModTime", 0, src)))
+//@                     s.records[path].(fileRecord).mode == old(keyvalue.srcMode(src)) &&
+//@                     s.records[path].(fileRecord).modTime == old(keyvalue.srcMTime(src)))
 //@   nopanic
 
 //@ spec hErr(t *transaction, handler keyvalue.OpHandler, op keyvalue.OpID, rec keyvalue.FileRecord, e error) := ret("keyvalue.(OpHandler).Handle", 0, handler, t, mkstruct(keyvalue.OpResult, op, rec, e))
@@ -112,8 +116,11 @@ package mem
 
 //@ func (t *transaction) SetHandler(path string, src keyvalue.FileRecord, contents blob.Blob, handler keyvalue.OpHandler) (id keyvalue.OpID)
 //@   props C18 C14
-//@   requires txnInv(t) && handler != nil && t.op < 1<<40
-//@   modifies t.op, t.results, elems(t.results), cancelled(t.ctx), t.released, held(t.store.mu), mapOf(t.store.records), world()
+//@   requires txnInv(t) && handler != nil && t.op < 1<<40 && keyvalue.srcOK(src)
+//@   modifies t.op, t.results, elems(t.results), cancelled(t.ctx), t.released, held(t.store.mu), mapOf(t.store.records), world(),
+//@            srcCache(src).data, srcCache(src).dataErr, srcCache(src).dataDone, oncedone(srcCache(src).dataOnce),
+//@            srcCache(src).mode, oncedone(srcCache(src).modeOnce), srcCache(src).modTime, oncedone(srcCache(src).modTimeOnce)
+//@   ensures "src-kept" keyvalue.srcKept(src)
 //@   ensures "one-result" id == old(t.op) && t.op == old(t.op) + 1 && len(t.results) == old(len(t.results)) + 1 && t.results[id].Op == id &&
 //@                        forall(i, 0, old(len(t.results)), t.results[i] == old(t.results[i]))
 //@   ensures "after-abort-no-effect" implies(old(cancelled(t.ctx)), t.results[id].Err == ctxErr() && sameAll(t.store) && world() == old(world()) &&
@@ -122,25 +129,32 @@ package mem
 //@   ensures "data-error" implies(!old(cancelled(t.ctx)) && src != nil && old(srcDataErr(src)) != nil, t.results[id].Err == old(srcDataErr(src)) && sameAll(t.store))
 //@   ensures "store" implies(!old(cancelled(t.ctx)) && src != nil && old(srcDataErr(src)) == nil, in(path, dom(t.store.records)) && sameExcept(t.store, path) &&
 //@                        isType(t.store.records[path], fileRecord) && t.store.records[path].(fileRecord).data == old(srcData(src)) &&
-//@                        t.store.records[path].(fileRecord).mode == old(ret("keyvalue.(FileRecord).Mode", 0, src)) &&
-//@                        t.store.records[path].(fileRecord).modTime == old(ret("keyvalue.(FileRecord).ModTime", 0, src)))
+//@                        t.store.records[path].(fileRecord).store == t.store && t.store.records[path].(fileRecord).path == path &&
+//@                        t.store.records[path].(fileRecord).mode == old(keyvalue.srcMode(src)) &&
+//@                        t.store.records[path].(fileRecord).modTime == old(keyvalue.srcMTime(src)))
 //@   ensures "inv" txnInv(t) && implies(old(cancelled(t.ctx)), cancelled(t.ctx))
 //@   ensures "noop-handler" implies(isType(handler, keyvalue.OpHandlerFunc) && noopfn(payload(handler)),
 //@                        cancelled(t.ctx) == old(cancelled(t.ctx)) && t.released == old(t.released) && held(t.store.mu) == old(held(t.store.mu)) &&
-//@                        implies(!old(cancelled(t.ctx)) && (src == nil || old(srcDataErr(src)) == nil), t.results[id].Err == nil))
+//@                        implies(!old(cancelled(t.ctx)) && (src == nil || old(srcDataErr(src)) == nil), t.results[id].Err == nil) && world() == old(world()))
 //@   nopanic
 
 //@ func (t *transaction) Set(path string, src keyvalue.FileRecord, contents blob.Blob) (id keyvalue.OpID)
 //@   props C18 C14
-//@   requires txnInv(t) && t.op < 1<<40
-//@   modifies t.op, t.results, elems(t.results), mapOf(t.store.records), world()
+//@   requires txnInv(t) && t.op < 1<<40 && keyvalue.srcOK(src)
+//@   modifies t.op, t.results, elems(t.results), mapOf(t.store.records),
+//@            srcCache(src).data, srcCache(src).dataErr, srcCache(src).dataDone, oncedone(srcCache(src).dataOnce),
+//@            srcCache(src).mode, oncedone(srcCache(src).modeOnce), srcCache(src).modTime, oncedone(srcCache(src).modTimeOnce)
+//@   ensures "src-kept" keyvalue.srcKept(src)
 //@   ensures "one-result" id == old(t.op) && t.op == old(t.op) + 1 && len(t.results) == old(len(t.results)) + 1 && t.results[id].Op == id &&
 //@                        forall(i, 0, old(len(t.results)), t.results[i] == old(t.results[i]))
-//@   ensures "after-abort-no-effect" implies(cancelled(t.ctx), t.results[id].Err == ctxErr() && sameAll(t.store) && world() == old(world()))
+//@   ensures "after-abort-no-effect" implies(cancelled(t.ctx), t.results[id].Err == ctxErr() && sameAll(t.store))
 //@   ensures "delete" implies(!cancelled(t.ctx) && src == nil, t.results[id].Err == nil && !in(path, dom(t.store.records)) && sameExcept(t.store, path))
 //@   ensures "data-error" implies(!cancelled(t.ctx) && src != nil && old(srcDataErr(src)) != nil, t.results[id].Err == old(srcDataErr(src)) && sameAll(t.store))
 //@   ensures "store" implies(!cancelled(t.ctx) && src != nil && old(srcDataErr(src)) == nil, t.results[id].Err == nil && in(path, dom(t.store.records)) && sameExcept(t.store, path) &&
-//@                        isType(t.store.records[path], fileRecord) && t.store.records[path].(fileRecord).data == old(srcData(src)))
+//@                        isType(t.store.records[path], fileRecord) && t.store.records[path].(fileRecord).data == old(srcData(src)) &&
+//@                        t.store.records[path].(fileRecord).store == t.store && t.store.records[path].(fileRecord).path == path &&
+//@                        t.store.records[path].(fileRecord).mode == old(keyvalue.srcMode(src)) &&
+//@                        t.store.records[path].(fileRecord).modTime == old(keyvalue.srcMTime(src)))
 //@   ensures "inv" txnInv(t)
 //@   nopanic
 
